@@ -261,6 +261,21 @@ fn decompositions(rng: &mut Rng, len: usize, runs: &[(usize, usize)], nrandom: u
     ops.push(Op::SetLen(len));
     ops.push(Op::SetLen(len));
     out.push(("gaps_two_steps", ops));
+    // empty runs everywhere: before each run, between the two halves of each run, and beyond the end
+    let mut ops = Vec::new();
+    for (s, l) in runs.iter() {
+        ops.push(Op::TrySet(*s + rng.below(3) as usize, 0));
+        if *l >= 2 {
+            ops.push(Op::TrySet(*s, *l / 2));
+            ops.push(Op::TrySet(*s + *l / 2 + 1 + rng.below(9) as usize, 0));
+            ops.push(Op::TrySet(*s + *l / 2, *l - *l / 2));
+        } else {
+            ops.push(Op::TrySet(*s, *l));
+        }
+    }
+    ops.push(Op::SetLen(len));
+    ops.push(Op::TrySet(len + 1 + rng.below(77) as usize, 0));
+    out.push(("empty_runs", ops));
     // random mixtures
     for _ in 0..nrandom {
         let mut ops = Vec::new();
@@ -288,6 +303,10 @@ fn decompositions(rng: &mut Rng, len: usize, runs: &[(usize, usize)], nrandom: u
                     // inside a run: a set_len that cannot grow the vector
                     ops.push(Op::SetLen(rng.below((*s + off) as u64 + 1) as usize));
                 }
+                if off < *l && rng.below(8) == 0 {
+                    // inside a run: an empty run somewhere beyond the current length (documented: no effect)
+                    ops.push(Op::TrySet(*s + off + 1 + rng.below(50) as usize, 0));
+                }
             }
             cur = *s + *l;
         }
@@ -296,6 +315,10 @@ fn decompositions(rng: &mut Rng, len: usize, runs: &[(usize, usize)], nrandom: u
         }
         if rng.below(4) == 0 {
             ops.push(Op::SetLen(rng.below(len as u64 + 1) as usize));
+        }
+        if rng.below(3) == 0 {
+            // an empty run beyond the final length: no effect on the length
+            ops.push(Op::TrySet(len + 1 + rng.below(100) as usize, 0));
         }
         out.push(("random", ops));
     }
